@@ -435,10 +435,14 @@ theorem pruner_cutoff_sound_partial (cfg : Pruner.Cfg) (i : Pruner.In) (c : Nat)
 
 /-- NEGATIONS with witnesses: (1) REGRESSION WITNESS for the defect fixed by 322dd0d — pivot = retainedBlocks (7 blocks, L1 head 4,
 retained 4): cutoff 0, the restorer's seed block is 2^64-1; (2) CURRENT code — a dead run pruned up to block 14 and
-the restart is configured with retained 9 (20 blocks, L1 head 17): cutoff 8 lies below the pruned prefix. -/
+the restart is configured with retained 9 (20 blocks, L1 head 17): cutoff 8 lies below the pruned prefix;
+(3) CURRENT code — a dead run pruned up to block 1 (and wiped the reverse lookups) and the restart's
+retention exceeds the pivot: "nothing to prune", the migration is recorded as applied with the lookups gone,
+where the patched decision finishes the started prune (cutoff 1). -/
 theorem pruner_cutoff_unsound_pinned :
     Pruner.cutoff Pruner.Cfg.pinned ⟨6, 4, 4, 0, none⟩ = some 0 ∧ Pruner.setupOk ⟨6, 4, 4, 0, none⟩ 0 = false ∧
-    Pruner.cutoff Pruner.Cfg.pinned ⟨19, 17, 9, 14, none⟩ = some 8 ∧ Pruner.setupOk ⟨19, 17, 9, 14, none⟩ 8 = false := by
+    Pruner.cutoff Pruner.Cfg.pinned ⟨19, 17, 9, 14, none⟩ = some 8 ∧ Pruner.setupOk ⟨19, 17, 9, 14, none⟩ 8 = false ∧
+    Pruner.cutoff ⟨false, true⟩ ⟨31, 5, 8, 1, none⟩ = none ∧ Pruner.cutoff Pruner.Cfg.fixed ⟨31, 5, 8, 1, none⟩ = some 1 := by
   decide
 
 /-! ## The head-state consolidation -/
